@@ -209,8 +209,8 @@ Definition gen_msg (code : Z) : option Z :=
   let '(called, _, _, _, msg, _, _) := stub_error_string code 1 1 0 0 in if called =? 1 then Some msg else None.
 Definition gen_fmt : Z := let '(_, _, _, fmt, _, _, _) := stub_error_string h_MPI_SUCCESS 1 1 0 0 in fmt.
 
-Ltac chain code :=
-  repeat match goal with |- context [code =? ?c] => destruct (code =? c) eqn:?; [ try reflexivity | ] end.
+Ltac chain code tac :=
+  repeat match goal with |- context [code =? ?c] => destruct (code =? c) eqn:?; [ tac | ] end.
 
 Theorem gen_error_string code str rl old snret :
   stub_error_string code str rl old snret =
@@ -224,8 +224,9 @@ Proof.
   unfold gen_msg, stub_error_string. cbv zeta.
   destruct ((str =? 0) || (rl =? 0))%bool; [reflexivity|].
   change ((1 =? 0) || (1 =? 0))%bool with false. cbv iota.
-  chain code; destruct (snret <? 0); try reflexivity; destruct (8192 <=? snret) eqn:E; try reflexivity;
-    change MAX_ERROR_STRING with 8192; rewrite E; reflexivity.
+  change MAX_ERROR_STRING with 8192.
+  chain code ltac:(destruct (snret <? 0); [reflexivity | destruct (8192 <=? snret); reflexivity]).
+  reflexivity.
 Qed.
 
 Theorem gen_error_string_table code :
@@ -240,7 +241,7 @@ Proof.
     dt_SC3_MPI_ERR_NO_SUCH_FILE, dt_SC3_MPI_ERR_FILE_EXISTS, dt_SC3_MPI_ERR_BAD_FILE, dt_SC3_MPI_ERR_ACCESS, dt_SC3_MPI_ERR_NO_SPACE,
     dt_SC3_MPI_ERR_QUOTA, dt_SC3_MPI_ERR_READ_ONLY, dt_SC3_MPI_ERR_FILE_IN_USE, dt_SC3_MPI_ERR_DUP_DATAREP, dt_SC3_MPI_ERR_CONVERSION,
     dt_SC3_MPI_ERR_IO.
-  chain code. reflexivity.
+  chain code ltac:(reflexivity). reflexivity.
 Qed.
 
 (* every message is shorter than the limit and not empty *)
